@@ -84,9 +84,7 @@ func canonOpt(sb *strings.Builder, v reflect.Value, depth int, loose bool) {
 		if math.IsNaN(f) {
 			s = "NaN"
 		}
-		if f == 0 && math.Signbit(f) {
-			s = "-0"
-		}
+		// -0 and +0 are the same quantity (they are == in Go and identified by treat-empty-as-default)
 		if loose {
 			fmt.Fprintf(sb, "f(%s)", s)
 		} else {
@@ -106,10 +104,7 @@ func canonOpt(sb *strings.Builder, v reflect.Value, depth int, loose bool) {
 		if !loose {
 			sb.WriteString(v.Type().String())
 		}
-		if v.Kind() == reflect.Slice && v.IsNil() && !loose {
-			sb.WriteString("(nil)")
-			return
-		}
+		// a nil slice and an empty slice are the same (empty) list
 		sb.WriteString("[")
 		for i := 0; i < v.Len(); i++ {
 			if i > 0 {
@@ -122,10 +117,7 @@ func canonOpt(sb *strings.Builder, v reflect.Value, depth int, loose bool) {
 		if !loose {
 			sb.WriteString(v.Type().String())
 		}
-		if v.IsNil() && !loose {
-			sb.WriteString("(nil)")
-			return
-		}
+		// a nil map and an empty map are the same (empty) mapping
 		items := make([]string, 0, v.Len())
 		it := v.MapRange()
 		for it.Next() {
